@@ -562,9 +562,8 @@ where
         };
         let p = d.x[0].len();
         let mut alts: Vec<Alt<O>> = Vec::new();
-        if meta.det {
-            alts.push(Alt { role: "refit", how: "same", data: d.clone(), obj: guard(|| fit(&d)) });
-        }
+        // a second fit on the same data (whether `==` must hold depends on `det`: the spec decides)
+        alts.push(Alt { role: "refit", how: "same", data: d.clone(), obj: guard(|| fit(&d)) });
         let ind = {
             let mut o = gen_data(kind, &mut rng, Some(p));
             o.q = d.q.clone();
@@ -643,7 +642,7 @@ fn kernel_obs<K: Kernel<f64, Vec<f64>>>(k: &K, d: &Data) -> Result<ObsB, Failed>
 // ---------------------------------------------------------------------------------------------
 
 fn gen_models(path: &str) {
-    let reps = if thorough() { 40 } else { 4 };
+    let reps = if thorough() { 400 } else { 25 };
     let mut cx = Cx { out: Out::create(path), run: 0, skipped: 0 };
     let cx = &mut cx;
     let mut st = 0u64;
@@ -865,7 +864,7 @@ fn gen_models(path: &str) {
 
     // ---- the dense matrix, every shape 1..5 x 1..5, both precisions ----------------------------
     let mut r = rng(1999);
-    let rounds = if thorough() { 4 } else { 1 };
+    let rounds = if thorough() { 40 } else { 4 };
     for _ in 0..rounds {
         for nr in 1..=5usize {
             for nc in 1..=5usize {
